@@ -1,6 +1,137 @@
 import TabulaModel.Util
-namespace Tabula.C08H
+import TabulaModel.Model.GState
+/-
+Line protocol for C08.
 
-def handle (_op : String) (_args : List String) : String := "bad-op"
+  c08.gs  <tok> <tok> …   →  the fragments of `text.NewExtractor().Extract…(program)`
+  c08.gfx <tok> <tok> …   →  the stroked lines of `graphicsstate.NewGraphicsExtractor()`
+
+Tokens (no spaces inside; numbers are integers or `n/d`):
+  q Q BT ET T*  cm:a,b,c,d,e,f  Tm:a,b,c,d,e,f  Td:x,y  TD:x,y  Tf:s  TL:l  Tc:c  Tw:w  Tz:z
+  Tj:sid  ':sid  ":aw,ac,sid  L:x0,y0,x1,y1  Do[ … ]  Do:a,b,c,d,e,f[ … ]
+Reply of c08.gs: `err` (extraction failed), `-` (no fragment) or `x,y,size²` per fragment
+joined by `;`, numbers as exact decimals; `~,~` for the origin of a fragment whose position
+depends on a glyph advance, `~` for size² when it is not the square of a rational.
+-/
+namespace Tabula.C08H
+open Tabula Tabula.GState
+
+def parseRat (s : String) : Option Rat :=
+  match s.splitOn "/" with
+  | [n] => n.toInt?.map fun i => (i : Rat)
+  | [n, d] => match n.toInt?, d.toNat? with
+    | some i, some k => if k = 0 then none else some ((i : Rat) / (k : Rat))
+    | _, _ => none
+  | _ => none
+
+def parseRats (s : String) : Option (List Rat) := (s.splitOn ",").mapM parseRat
+
+def toMatrix : List Rat → Option (Matrix Rat)
+  | [a, b, c, d, e, f] => some ⟨a, b, c, d, e, f⟩
+  | _ => none
+
+/-- one token that is not a bracket -/
+def parseSimple (t : String) : Option (Op Rat) :=
+  match t with
+  | "q" => some .q | "Q" => some .Q | "BT" => some .BT | "ET" => some .ET | "T*" => some .Tstar
+  | _ =>
+    match t.splitOn ":" with
+    | [k, v] => do
+      let xs ← parseRats v
+      match k, xs with
+      | "cm", xs => (toMatrix xs).map .cm
+      | "Tm", xs => (toMatrix xs).map .Tm
+      | "Td", [x, y] => some (.Td x y)
+      | "TD", [x, y] => some (.TD x y)
+      | "Tf", [x] => some (.Tf x)
+      | "TL", [x] => some (.TL x)
+      | "Tc", [x] => some (.Tc x)
+      | "Tw", [x] => some (.Tw x)
+      | "Tz", [x] => some (.Tz x)
+      | "Tj", [x] => some (.Tj x.num.toNat)
+      | "'", [x] => some (.quote x.num.toNat)
+      | "\"", [w, c, x] => some (.dquote w c x.num.toNat)
+      | "L", [a, b, c, d] => some (.line a b c d)
+      | _, _ => none
+    | _ => none
+
+/-- header of a form: `Do[` or `Do:a,b,c,d,e,f[` -/
+def parseFormHead (t : String) : Option (Option (Matrix Rat)) :=
+  if t == "Do[" then some none
+  else if t.startsWith "Do:" && t.endsWith "[" then
+    match parseRats ((t.drop 3).dropEnd 1).toString with
+    | some xs => (toMatrix xs).map some
+    | none => none
+  else none
+
+/-- recursive descent with fuel; returns the ops up to the closing `]` (or the end) and
+the remaining tokens -/
+def parseOps : Nat → List String → Option (List (Op Rat) × List String)
+  | 0, _ => none
+  | _, [] => some ([], [])
+  | fuel + 1, t :: ts =>
+    if t == "]" then some ([], ts)
+    else match parseFormHead t with
+      | some m => do
+        let (body, ts1) ← parseOps fuel ts
+        let (rest, ts2) ← parseOps fuel ts1
+        pure (.form m body :: rest, ts2)
+      | none => do
+        let op ← parseSimple t
+        let (rest, ts2) ← parseOps fuel ts
+        pure (op :: rest, ts2)
+
+def parseProgram (ts : List String) : Option (List (Op Rat)) :=
+  match parseOps (2 * ts.length + 2) ts with
+  | some (ops, []) => some ops
+  | _ => none
+
+def pow2? (n : Nat) : Option Nat :=
+  let k := n.log2
+  if 2 ^ k = n then some k else none
+
+def padLeft (s : String) (n : Nat) : String := String.ofList (List.replicate (n - s.length) '0') ++ s
+
+def trimZeros (cs : List Char) : List Char := (cs.reverse.dropWhile (· == '0')).reverse
+
+/-- the exact decimal expansion of a dyadic rational, as `strconv.FormatFloat(x,'f',-1,64)`
+prints an exactly representable value; other rationals as `n/d` -/
+def dec (r : Rat) : String :=
+  match pow2? r.den with
+  | none => s!"{r.num}/{r.den}"
+  | some k =>
+    let n := r.num.natAbs * 5 ^ k
+    let ip := n / 10 ^ k
+    let fp := trimZeros (padLeft (toString (n % 10 ^ k)) k).toList
+    let sign := if r.num < 0 then "-" else ""
+    if fp.isEmpty then s!"{sign}{ip}" else s!"{sign}{ip}.{String.ofList fp}"
+
+def isSquareNat (n : Nat) : Bool := n.sqrt * n.sqrt == n
+
+def isSquare (r : Rat) : Bool := decide (0 ≤ r.num) && isSquareNat r.num.toNat && isSquareNat r.den
+
+def showStr (sh : Show Rat) : String :=
+  let pos := if sh.clean then s!"{dec sh.x},{dec sh.y}" else "~,~"
+  let sz := if isSquare sh.tmScale2 && isSquare sh.ctmScale2
+    then dec (sh.fs * sh.fs * sh.tmScale2 * sh.ctmScale2) else "~"
+  s!"{pos},{sz}"
+
+def segStr (g : Seg Rat) : String := s!"{dec g.x0},{dec g.y0},{dec g.x1},{dec g.y1}"
+
+def joinOr (xs : List String) : String := if xs.isEmpty then "-" else ";".intercalate xs
+
+def handle (op : String) (args : List String) : String :=
+  match op with
+  | "c08.gs" => match parseProgram args with
+    | some ops => (match run (fun _ _ => (0 : Rat)) ops init with
+      | some shows => joinOr (shows.map showStr)
+      | none => "err")
+    | none => "bad-op"
+  | "c08.gfx" => match parseProgram args with
+    | some ops => (match gfx ops (init : State Rat) with
+      | some segs => joinOr (segs.map segStr)
+      | none => "err")
+    | none => "bad-op"
+  | _ => "bad-op"
 
 end Tabula.C08H
